@@ -333,7 +333,7 @@ REGISTRY = {
                 "1-3 source addresses (dead ones first/last/between), settings grid over UpdateInterval/StaleBackendTimeout/IdleTimeout/IdleInterval; after every event status, data presence, idling, error count, last_online/last_update ages, "
                 "flags and the number of queries the backend received are compared with Lmd.tick / Lmd.clientQuery; non-trivial = at least 6 steps",
         "correspondence": "Lmd.PeerSt.fail / recovered / tick / clientQuery / initAllTables vs setNextAddrFromErr / resetErrors / periodicUpdate / ResumeFromIdle / InitAllTables",
-        "assumptions": ["virtual clock (overlay patch of currentUnixTime), whole seconds", "BackendKeepAlive off, MaxParallelPeerConnections 1 (serial init)", "fallback addresses and HTTP backends are not modelled"],
+        "assumptions": ["virtual clock (overlay patch of currentUnixTime), whole seconds", "BackendKeepAlive off, MaxParallelPeerConnections 1 (serial init)", "fallback addresses are not part of the model: 12 (thorough 150) histories with fallback addresses are judged by the property statements evaluated on the implementation state only; HTTP backends are not exercised"],
     },
     "C12": {
         "lean_modules": ["C12"],
